@@ -123,4 +123,33 @@ def blocked (c : Chain) : Bool :=
 def samplerResult (controllerErr : Bool) (results : List ChainRes) : ChainRes :=
   if controllerErr || results.any (· == .err) then .err else .ok
 
+/-! ### Trace contents
+
+The chain's sampler is private to its task: the `k`-th call of `expanded_draw` returns the `k`-th
+element of a stream that depends on the chain's seed only.  `drawn` counts those calls, `trace`
+lists for each recorded draw the stream index it came from. -/
+
+structure TChain where
+  c : Chain
+  drawn : Nat := 0
+  trace : List Nat := []
+  deriving Repr
+
+/-- the step calls `expanded_draw` successfully -/
+def drew (c : Chain) : ChainEv → Bool
+  | .step o =>
+    (match c.phase with
+     | .top .empty => true
+     | .top (.cmd .resume) => true
+     | _ => false) && c.n != c.total && o.drawOk
+  | _ => false
+
+def tApply (t : TChain) (e : ChainEv) : TChain :=
+  let c' := applyEv t.c e
+  { c := c'
+    drawn := if drew t.c e then t.drawn + 1 else t.drawn
+    trace := if c'.n = t.c.n + 1 then t.trace ++ [t.drawn] else t.trace }
+
+def tRun (t : TChain) (evs : List ChainEv) : TChain := evs.foldl tApply t
+
 end NutsModel.Model
